@@ -80,7 +80,7 @@ fn run_crash(scn: &Scenario, prop: &str, explore: bool) -> RunResult {
                 CrashSpec::Process { cut, partial } => *cut + usize::from(partial.is_some()),
                 CrashSpec::Power { cut, .. } => *cut,
             };
-            let (cands, may_fail) = crash::allowed_states(&w, seg, cut, &seg_start_model(&w, cp.seg));
+            let (cands, may_fail) = if power { crash::allowed_states_power(&w, seg, cut, &seg_start_model(&w, cp.seg)) } else { crash::allowed_states(&w, seg, cut, &seg_start_model(&w, cp.seg)) };
             let ne = if nested && cp.nested.is_empty() { Some((&mut r, 3usize)) } else { None };
             let ctx = crash::phase(&seg.log, cut, &scn.ops);
             ev.pending_class = crash::pending_class(&w, seg, cut, &seg_start_model(&w, cp.seg), &scn.ops);
@@ -96,14 +96,26 @@ fn run_crash(scn: &Scenario, prop: &str, explore: bool) -> RunResult {
         for si in 0..w.segs.len() {
             let seg = &w.segs[si];
             let all = tier == Tier::Thorough && crash::candidate_cuts(&seg.log).len() <= 400;
-            let specs = if power { crash::sample_power(&seg.log, &mut r, per_seg, false) } else { crash::sample_process(&seg.log, &mut r, per_seg, all, false) };
+            let specs = if power {
+                let mut v = crash::sample_power(&seg.log, &mut r, per_seg, false);
+                // a power loss in which everything written so far happens to survive is a
+                // process-crash image: take a share of the stratified process cuts as well
+                for c in crash::sample_process(&seg.log, &mut r, per_seg / 3, false, false) {
+                    if let CrashSpec::Process { cut, .. } = c {
+                        v.push(CrashSpec::Power { cut, drop: vec![], tear: None, dir_keep: usize::MAX });
+                    }
+                }
+                v
+            } else {
+                crash::sample_process(&seg.log, &mut r, per_seg, all, false)
+            };
             let start = seg_start_model(&w, si);
             for spec in specs {
                 let cut = match &spec {
                     CrashSpec::Process { cut, partial } => *cut + usize::from(partial.is_some()),
                     CrashSpec::Power { cut, .. } => *cut,
                 };
-                let (cands, may_fail) = crash::allowed_states(&w, seg, cut, &start);
+                let (cands, may_fail) = if power { crash::allowed_states_power(&w, seg, cut, &start) } else { crash::allowed_states(&w, seg, cut, &start) };
                 if crash::position(&seg.log, cut).0.is_some() {
                     ev.stats.inflight_cuts += 1;
                 }
@@ -416,6 +428,17 @@ pub fn all() -> Vec<CheckDef> {
             assumptions: &["cards and mesh entries are not logged: they become durable at the next commit (explicit, automatic, or on drop); the model loses un-committed ones on process death", "ties in effective time: any of the tied cards is accepted"],
             want_probes: &["cards_put", "card_queries_answered", "card_queries_beyond_latest", "mesh_adds", "abandon"],
         },
+        CheckDef {
+            id: "C40",
+            level: "exploration",
+            quick_s: 45,
+            thorough_s: 600,
+            gen: crate::bulk::gen_bulk,
+            run: crate::bulk::run_bulk,
+            rule: "a seeded document set (texts around the chunk threshold, binary, compressible, structured and multi-byte payloads, tags, embeddings, explicit timestamps) is ingested twice into fresh files under the same simulated environment: once with plain puts and one commit, once through begin_batch/end_batch with random options (skip_sync, compression level 0..19, disable_auto_checkpoint, pre-sized log) and/or several commit_skip_indexes followed by finalize_indexes; frames, contents, metadata, embeddings, timeline, searches (sketch on and off) and vector searches of both are compared on the live handles and after reopening read-only; a run is non-trivial iff the bulk history acknowledged a mutation and both sides were compared; distinct = (op-kind buckets, probes) classes",
+            assumptions: &["physical placement (offsets, stored sizes, payload_bytes) is excluded from the comparison: the batch options change the compression level on purpose", "the durability side of skip_sync (nothing owed before end_batch, everything after) is decided by C03's power-loss images over histories that contain batches"],
+            want_probes: &["bulk_compares", "bulk_with_batch_mode", "bulk_several_skip_index_commits", "chunked_puts"],
+        },
         hist("C42", gen_vacuum, &["vacuum", "deletes", "updates"]),
         medium("C20", &["medium_images", "medium_open_accepted", "medium_open_rejected", "fault_in_payload", "fault_in_toc", "fault_in_footer", "fault_in_wal", "fault_in_indexes"]),
         medium("C21", &["medium_images", "medium_doctor_ran"]),
@@ -462,6 +485,9 @@ pub fn quick_runs(id: &str) -> u64 {
         "C24" => 340,
         "C25" => 400,
         "C31" => 160,
+        "C12" => 90,
+        "C26" | "C27" => 160,
+        "C40" => 120,
         "C42" => 260,
         _ => 100,
     }
